@@ -49,6 +49,8 @@ def run(ctx):
                 ctx.violation("C07:%s:%s" % (m["kind"], m["site"]), "%s: %s" % (m["site"], m["detail"]),
                               {"kind": "tlc-behaviour", "module": "MC_Wire", "behaviour": siml.replays[f["index"]], "mismatch": m})
     el.selftest(ctx, "script", beh)
+    from props import socklib
+    socklib.c07_sockets(ctx)
     ctx.assumptions += [
         "engine level: the session actor's handshake timer and connection-slot accounting are covered by the socket-level part of this check when present",
         "mutations are seeded samples, not an enumeration of all byte strings",
